@@ -4,5 +4,6 @@ CONSTANTS
   MaxB = 6
   MaxH = 14
   MaxJ = 4
-INVARIANTS ChunkContent ChunkCount HintOK Coverage NthOK
+  MaxSet = 2
+INVARIANTS ChunkContent ChunkCount HintOK Coverage NthOK FieldsOK ConsumeOK
 CHECK_DEADLOCK FALSE
